@@ -1035,7 +1035,25 @@ class Evaluator:
             hit = st.attr_store.get((base, idx))
             if hit is not None:
                 return hit[0]
+            # a field of a typing.NamedTuple that was just built: the argument it was built with
+            if base[0] == "call" and base[1][0] == "name":
+                cn = base[1][1].split(".")[-1]
+                ci = self.program.classes.get(cn)
+                if ci is not None and "NamedTuple" in getattr(ci, "bases", []) and not ci.methods:
+                    fields = list(getattr(ci, "class_annotations", {}) or {})
+                    if idx in fields:
+                        kws_ = dict(base[3])
+                        if idx in kws_:
+                            return kws_[idx]
+                        i_ = fields.index(idx)
+                        if i_ < len(base[2]):
+                            return base[2][i_]
             owner = self._owner_of(node.value, idx) if isinstance(node, ast.Attribute) else "?"
+            oc = self.program.classes.get(owner) if isinstance(owner, str) else None
+            if oc is not None and "NamedTuple" in getattr(oc, "bases", []) and not oc.methods:
+                fields = list(getattr(oc, "class_annotations", {}) or {})
+                if idx in fields:
+                    return self._read(st, base, const(fields.index(idx)), node)  # a named field of a tuple is its position
             ver = self._ver(st, owner, idx)
             return ("attr", base, idx, ver) if ver else ("attr", base, idx)
         sb = strip_ver(base)
@@ -1263,16 +1281,76 @@ class Evaluator:
     def _global_name(self, n: str) -> Term:
         mod = self._cur_func.module
         if n in mod.imports:
-            return ("name", mod.imports[n])
+            target = mod.imports[n]
+            owner, _, attr = target.rpartition(".")
+            om = self.program.modules.get(owner)
+            if om is not None and attr not in om.classes and attr not in om.functions:
+                v = self._module_constant(om, attr)
+                if v is not None:
+                    return v
+            return ("name", target)
         if n in mod.classes or n in mod.functions:
             return ("name", f"{mod.name}.{n}")
         # module-level constant?
+        v = self._module_constant(mod, n)
+        if v is not None:
+            return v
         for node in mod.tree.body:
             if isinstance(node, ast.Assign) and len(node.targets) == 1 and isinstance(node.targets[0], ast.Name) and node.targets[0].id == n:
-                if isinstance(node.value, ast.Constant):
-                    return const(node.value.value)
                 return ("name", f"{mod.name}.{n}")
         return ("name", n)
+
+    def _module_constant(self, mod, n: str, depth: int = 0) -> Optional[Term]:
+        """value of a module-level name that is bound once, at module level, to an immutable literal (number, string,
+        None, a tuple of such, a class or function of the package): reading it is reading that value"""
+        binds = []
+        for node in mod.tree.body:
+            if isinstance(node, ast.Assign):
+                for t in node.targets:
+                    if isinstance(t, ast.Name) and t.id == n:
+                        binds.append(node.value)
+            elif isinstance(node, ast.AnnAssign) and isinstance(node.target, ast.Name) and node.target.id == n and node.value is not None:
+                binds.append(node.value)
+            elif isinstance(node, (ast.AugAssign,)) and isinstance(node.target, ast.Name) and node.target.id == n:
+                return None
+        if len(binds) != 1:
+            return None
+        # rebound somewhere else (global statement)?
+        for x in ast.walk(mod.tree):
+            if isinstance(x, ast.Global) and n in x.names:
+                return None
+
+        def val(e: ast.AST) -> Optional[Term]:
+            if isinstance(e, ast.Constant):
+                return const(e.value)
+            if isinstance(e, ast.Tuple):
+                items = [val(x) for x in e.elts]
+                return None if any(i is None for i in items) else ("tuple", tuple(items))
+            if isinstance(e, ast.UnaryOp) and isinstance(e.op, ast.USub):
+                x = val(e.operand)
+                return const(-x[1]) if x is not None and x[0] == "const" and isinstance(x[1], (int, float)) and not isinstance(x[1], bool) else None
+            if isinstance(e, ast.BinOp) and isinstance(e.op, (ast.Add, ast.Sub, ast.Mult, ast.Pow)):
+                a, b = val(e.left), val(e.right)
+                if a is not None and b is not None and a[0] == b[0] == "const" and all(isinstance(x[1], (int, float)) and not isinstance(x[1], bool) for x in (a, b)):
+                    try:
+                        if isinstance(e.op, ast.Pow) and (abs(b[1]) > 64 or abs(a[1]) > 1024):
+                            return None
+                        return const({ast.Add: a[1] + b[1], ast.Sub: a[1] - b[1], ast.Mult: a[1] * b[1], ast.Pow: a[1] ** b[1]}[type(e.op)])
+                    except Exception:
+                        return None
+                return None
+            if isinstance(e, ast.Call) and isinstance(e.func, ast.Name) and e.func.id == "float" and len(e.args) == 1 and isinstance(e.args[0], ast.Constant) and e.args[0].value in ("inf", "-inf"):
+                return const(float(e.args[0].value))
+            if isinstance(e, ast.Name):
+                if e.id in mod.classes or e.id in mod.functions:
+                    return ("name", f"{mod.name}.{e.id}")
+                if e.id in mod.imports:
+                    return ("name", mod.imports[e.id])
+                if depth < 3:
+                    return self._module_constant(mod, e.id, depth + 1)
+            return None
+
+        return val(binds[0])
 
     def _eval_attr(self, st: _State, base: Term, e: ast.Attribute) -> List[Tuple[_State, Term]]:
         # property of a package class -> inline trivial ones
@@ -1501,6 +1579,14 @@ class Evaluator:
             if cname in p.classes and (fterm[1].startswith(p.pkg + ".") or fterm[1] == cname):
                 init = p.lookup_method(cname, "__init__")
                 return CallSite(site.caller, e, [init] if init else [], "ctor", cname, [cname]), cname
+        if fterm[0] == "name" and fterm[1].count(".") >= 1:
+            # Class.method(...) naming a static method of a package class
+            parts_ = fterm[1].split(".")
+            cname, mname = parts_[-2], parts_[-1]
+            if cname in p.classes and (fterm[1].startswith(p.pkg + ".") or len(parts_) == 2):
+                m = p.lookup_method(cname, mname)
+                if m is not None and m.is_static:
+                    return CallSite(site.caller, e, [m], "exact", mname, [cname]), mname
         if fterm[0] == "attr" and fterm[1] == ("sym", "self") and self._cur_func.cls is not None:
             owner = self._cur_func
             m = p.lookup_method(owner.cls.name, fterm[2])
@@ -1557,6 +1643,20 @@ class Evaluator:
             binding = {("bound", p_): a for p_, a in zip(fterm[1], args)}
             binding.update({("bound", k): v for k, v in kws})
             return [(st, substitute(fterm[2], binding))]
+        # a typing.NamedTuple without methods is a tuple with named positions
+        if fterm[0] == "name" and not any(k in ("*", "**") for k, _ in kws):
+            ci_ = self.program.classes.get(fterm[1].split(".")[-1])
+            if ci_ is not None and "NamedTuple" in getattr(ci_, "bases", []) and not ci_.methods:
+                fields_ = list(getattr(ci_, "class_annotations", {}) or {})
+                vals_ = list(args) + [None] * (len(fields_) - len(args))
+                okc = len(args) <= len(fields_)
+                for k, v in kws:
+                    if k in fields_ and vals_[fields_.index(k)] is None:
+                        vals_[fields_.index(k)] = v
+                    else:
+                        okc = False
+                if okc and all(v is not None for v in vals_):
+                    return [(st, ("tuple", tuple(vals_)))]
         # the operator module spells operators as functions
         fk = key(fterm) if fterm[0] in ("name", "attr") else ""
         if fk.startswith("operator.") and not kws:
